@@ -194,7 +194,7 @@ pub fn beyond_u16(thorough: bool) -> Vec<(usize, &'static str)> {
             (331777, "prime > 2^18: p-1 is 3-smooth"),
             (524309, "prime > 2^19: Bluestein"),
             (629857, "prime > 2^19: p-1 is 3-smooth"),
-            (257 * 65537 / 65537 * 66049, "257^2 = 66049 (prime square > 2^16)"),
+            (66049, "257^2 = 66049 (prime square > 2^16)"),
             (1048583, "prime > 2^20: Bluestein"),
             (1179649, "prime 9*2^17+1 (Rader)"),
         ]);
